@@ -472,6 +472,24 @@ def rule_track_distances(ctx, R):
             'attributes',) and {e[0].root, e[1].root} == {('param', 1), ('param', 2)}
         ctx.check(okargs, R, b, 'compatible(self.attributes, other.attributes)', '%r, %r' % e,
                   'compatible() is evaluated on %r and %r, not on the attributes of the two tracks' % e)
+        # every outcome other than IncompatibleAttributes is decided on the compatible()==true side: an incompatible
+        # track never contributes a result NOR an error report (the worker drops only IncompatibleAttributes)
+        for bb, kind, desc in exits(b):
+            conds = path_conditions(b, bb)
+            g = [k for k in conds if k.kind == 'bool' and k.expr.kind == 'call' and k.expr.name.endswith(
+                'TrackAttributes::compatible')]
+            incompat = False
+            for d in b.defs().get(0, []):
+                if d[1] == bb and d[0] == 'assign':
+                    ee = eb._rvalue(d[3]['rv'], (), 0, (d[1], d[2]))
+                    incompat = 'IncompatibleAttributes' in repr(ee)
+            if incompat:
+                continue
+            n += 1
+            ctx.check(bool(g) and all(k.truth is True for k in g), R, b, 'outcome-only-when-compatible:bb%d' % bb,
+                      desc, 'Track::distances can produce an outcome (%s) for a pair of tracks whose attributes were '
+                      'not found compatible: incompatible tracks take part in the query (as results or as error '
+                      'reports)' % desc)
     for cb in all_closures(F, b):
         for mc in cb.find_calls('track::ObservationMetric::metric'):
             # the closure is constructed only on the compatible side
